@@ -456,7 +456,12 @@ fn syscall_space(ctx: &Ctx, rep: &Report) {
             // a failed run leaves no staging directory behind, unless it is the documented complete survivor of a failed publish.
             // The single injected fault is what made the run fail, so the clean-up that follows it runs fault-free.
             let stray: Vec<&(String, At)> = staging_like.iter().filter(|(n, a)| !n.ends_with(".old") && *a != At::New).collect();
-            if !stray.is_empty() {
+            // from an initial state in which the fault-free run itself fails (output path is a file), the clean-up of the staging
+            // directory is part of the reference sequence: a fault injected INTO that clean-up cannot be expected to be cleaned up
+            let hit_reference_cleanup = init == Init::File && (sc.name == "unlink" || sc.name == "unlinkat" || sc.name == "rmdir" || (sc.name == "openat" && sc.line.contains("O_DIRECTORY")));
+            if !stray.is_empty() && hit_reference_cleanup {
+                rep.count("partial_staging_after_fault_in_the_reference_cleanup(observed, not judged)");
+            } else if !stray.is_empty() {
                 if single {
                     rep.violation("publish / failed generation leaves a staging directory behind", &format!("after the reported failure caused by `{failed_call}` a partial staging directory is left next to the output: {:?}", stray.iter().map(|(n, a)| format!("{n}: {a:?}")).collect::<Vec<_>>()), case.clone());
                 } else {
